@@ -12,6 +12,7 @@
 //                    r R retain/release  s suspend  u resume  k add a child queue targeting q  K release the newest child
 //                    p async one item to q (runs when q can run)  P async one item to the newest child
 //                    S async an item that suspends q from inside its own drain (undone by a later u)
+//                    Q the same with a second item queued behind it (the drain is interrupted: invoke_finish path)
 //                    x set context+finalizer  y queue_set_specific(key, value, destructor)  z final settle
 //                    m create timer source on q (inactive)  M arm (set_timer far future + activate)  X cancel  Z release source
 //                    v create an initially inactive queue qi (reported in place of q until 'V' activates + releases it)
@@ -128,6 +129,8 @@ static void run_lane_script(const char *ops) {
 		case 'K': dispatch_release(kids[--nk]); break;
 		case 'p': dispatch_async_f(q, NULL, item_fn); break;
 		case 'P': dispatch_async_f(kids[nk - 1], NULL, item_fn); break;
+		case 'Q': { int before = atomic_load(&items_run); dispatch_suspend(q); dispatch_async_f(q, q, suspend_self_fn); dispatch_async_f(q, NULL, item_fn);
+			dispatch_resume(q); wait_for(&items_run, before + 1); } break;   // the drain is interrupted with an item left: _dispatch_queue_invoke_finish
 		case 'S': { int before = atomic_load(&items_run); dispatch_async_f(q, q, suspend_self_fn); wait_for(&items_run, before + 1); } break;  // the drain is interrupted by a suspension: _dispatch_queue_invoke_finish
 		case 'x': hasfin = 1; dispatch_set_context(q, ctxbuf + 3); dispatch_set_finalizer_f(q, finalizer); break;
 		case 'y': dispatch_queue_set_specific(q, &skey, (void *)1, specific_dtor); break;
